@@ -118,6 +118,7 @@ source (`H2C.genMap`) must give the same two mapped points; a difference there a
 def h2cDecide (curve : String) (us : List (List Nat)) (rhs : String) : Verdict :=
   match Curves.byName? curve, H2C.rfcSuite? curve with
   | some C, some S =>
+    if rhs.startsWith "err:script" then .unsupported ("C19 h2cmap " ++ rhs) else
     match Curves.parse? C rhs with
     | none => .bad "h2c.output" ("not a point: " ++ rhs)
     | some P =>
@@ -131,7 +132,8 @@ def h2cDecide (curve : String) (us : List (List Nat)) (rhs : String) : Verdict :
           else
             let ref := Curves.render C (H2C.combine C S.hEff r0 r1)
             if ref != rhs then
-              .bad "h2c.rfc" ("expected=" ++ ref ++ " observed=" ++ rhs ++ " u=" ++ renderElem u0 ++ "," ++ renderElem u1)
+              -- RFC 9380 §6.6.3: a point of the isogeny's kernel is mapped to the identity
+              .bad (if r0 == .inf || r1 == .inf then "h2c.iso-kernel" else "h2c.rfc") ("expected=" ++ ref ++ " observed=" ++ rhs ++ " u=" ++ renderElem u0 ++ "," ++ renderElem u1)
             else if g0 != r0 || g1 != r1 then
               .diff ("generated-map=" ++ Curves.render C g0 ++ "," ++ Curves.render C g1 ++ " reference-map=" ++ Curves.render C r0 ++ "," ++ Curves.render C r1)
             else .ok
@@ -143,7 +145,7 @@ def h2cHashed (curve : String) (dst msg : Option ByteArray) (rhs : String) : Ver
   match dst, msg with
   | some d, some m =>
     match H2C.h2cFieldElems curve d m with
-    | some us => h2cDecide curve us rhs
+    | some us => h2cDecide (H2C.modelCurve curve) us rhs
     | none => .unsupported ("C19 h2c hash_to_field " ++ curve)
   | _, _ => .unsupported "C19 h2c arguments"
 
